@@ -108,6 +108,29 @@ pub fn word_seq_space(r: &mut Run, name: &str, mask: u32, algs: Vec<Alg>) -> Res
     })
 }
 
+/// Medium-sized *non-periodic* paragraphs: every sequence of up to 12 (thorough 16) words over
+/// two word lengths, and of up to 8 (thorough 11) over three shapes incl. a hyphenated one —
+/// the scale probes reach long inputs only along periodic ones, the other word spaces stop at
+/// 6/9 words.
+pub fn word_seq_long_space(r: &mut Run, name: &str, mask: u32, algs: Vec<Alg>) -> Result<(), MachineryError> {
+    for (suffix, alpha, n, widths) in [("two-lengths", vec![WD2, WD5], r.tier.pick(12, 16), vec![5usize, 6, 8, 11, 13]), ("three-shapes", vec![WD1, WD3, WDH], r.tier.pick(8, 11), vec![3usize, 4, 5, 7, 9])] {
+        let g = Gamma { seps: seps(), algs: algs.clone(), spls: vec![Spl::Hyphen], bws: vec![true, false], indents: vec![("", ""), ("  ", "")], crlf: vec![false] };
+        let bases = g.bases();
+        let space = Space { name: format!("{}({})", name, suffix), menu: menu(&alpha), max_len: n, desc: format!("<= {} whole words from the menu joined by single spaces (one paragraph, medium length, every non-periodic order); {}; widths {:?}", n, g.describe(), widths) };
+        r.space(space, |seq, cx| {
+            let mut text = build(seq, &alpha);
+            text.pop();
+            cx.set_input(&text);
+            for base in &bases {
+                for &w in &widths {
+                    check_wrap(&text, &Cfg { width: w, ..*base }, mask, cx);
+                }
+            }
+        })?;
+    }
+    Ok(())
+}
+
 /// "Every character in a fixed context": the scalar values enumerated by the all-characters
 /// passes.  Quick = complete sub-ranges chosen to contain every script class the code
 /// distinguishes (controls, Latin, combining marks, general punctuation incl. zero-width and
